@@ -372,3 +372,138 @@ Arguments unstored_from_unstored {V}.
 Definition diag_operand_example : COO.coo Z := COO.mkCOO [2; 2] [[0; 0]] [4] 3.
 Definition diag_result_example : COO.coo Z := COO.mkCOO [2] [[0]] [4] 0.
 Definition diag_src (i : Shape.idx) : Shape.idx := match i with [k] => [k; k] | _ => [] end.
+
+(* ------------------------------------------------------------------ (7) what discharges "right at every position or
+   ValueError" for each PUBLIC operation of the generated table (hand-written; checked against the table and against the
+   registry of cited theorems in Proofs/FillCitesP.v by Props/C07.v:fill_right_or_raises_cited)
+     ByGuard        zero-only / join / refusing operations: guard_zero_sound, guard_consistent_sound + the row's site_ok
+     ByCite thm     the den-level theorem of the property that owns the operation (result right at every position,
+                    fill included, or ValueError), cited through the registry
+     CampaignOnly   no theorem: the operation x fill matrix only
+     NotApplicable  no sparse result (policy NoArrayResult) *)
+Inductive discharge := ByGuard | ByCite (thm : string) | CampaignOnly | NotApplicable.
+
+Definition fill_discharge : list (string * discharge) := [
+  ("common.abs", ByCite "C01.elemwise_api_den"); ("common.all", ByCite "C03.reduce_den");
+  ("common.any", ByCite "C03.reduce_den"); ("common.asarray", ByCite "C05.conversion_chain_den");
+  ("common.asnumpy", NotApplicable); ("common.astype", ByCite "C01.elemwise_api_den");
+  ("common.broadcast_arrays", ByCite "C08.broadcast_to_den"); ("common.broadcast_to", ByCite "C08.broadcast_to_den");
+  ("common.can_cast", NotApplicable); ("common.concat", ByCite "C09.coo_join_mixed_fill_rejected");
+  ("common.concatenate", ByCite "C09.coo_join_mixed_fill_rejected"); ("common.dot", ByGuard);
+  ("common.einsum", ByGuard); ("common.empty", CampaignOnly);
+  ("common.empty_like", CampaignOnly); ("common.equal", ByCite "C01.elemwise_api_den");
+  ("common.eye", CampaignOnly); ("common.full", CampaignOnly);
+  ("common.full_like", CampaignOnly); ("common.imag", ByCite "C01.elemwise_api_den");
+  ("common.isinf", CampaignOnly); ("common.isnan", CampaignOnly);
+  ("common.matmul", ByGuard); ("common.max", ByCite "C03.reduce_den");
+  ("common.mean", ByCite "C03.mean_den"); ("common.min", ByCite "C03.reduce_den");
+  ("common.moveaxis", ByCite "C08.moveaxis_den"); ("common.nonzero", ByGuard);
+  ("common.ones", CampaignOnly); ("common.ones_like", CampaignOnly);
+  ("common.outer", ByCite "C01.elemwise_api_den"); ("common.pad", ByCite "C08.pad_den");
+  ("common.permute_dims", ByCite "C08.transpose_den"); ("common.prod", ByCite "C03.reduce_den");
+  ("common.real", ByCite "C01.elemwise_api_den"); ("common.reshape", ByCite "C08.reshape_den");
+  ("common.round", ByCite "C01.elemwise_api_den"); ("common.squeeze", ByCite "C08.squeeze_den");
+  ("common.stack", ByCite "C09.coo_join_mixed_fill_rejected"); ("common.std", ByCite "C03.var_den");
+  ("common.sum", ByCite "C03.reduce_den"); ("common.tensordot", ByGuard);
+  ("common.var", ByCite "C03.var_den"); ("common.vecdot", ByCite "C01.elemwise_api_den");
+  ("common.zeros", CampaignOnly); ("common.zeros_like", CampaignOnly);
+  ("coo_core.as_coo", ByCite "C05.conversion_chain_den"); ("coo_common.argmax", CampaignOnly);
+  ("coo_common.argmin", CampaignOnly); ("coo_common.argwhere", ByGuard);
+  ("coo_common.asCOO", ByCite "C05.conversion_chain_den"); ("coo_common.clip", ByCite "C01.elemwise_api_den");
+  ("coo_common.diagonal", ByCite "C09.diagonal_den"); ("coo_common.diagonalize", ByGuard);
+  ("coo_common.expand_dims", ByCite "C08.expand_dims_den"); ("coo_common.flip", ByCite "C08.flip_den");
+  ("coo_common.isneginf", ByCite "C01.elemwise_api_den"); ("coo_common.isposinf", ByCite "C01.elemwise_api_den");
+  ("coo_common.kron", ByGuard); ("coo_common.matrix_transpose", ByCite "C08.mT_den");
+  ("coo_common.nanmax", ByCite "C03.nanreduce_den"); ("coo_common.nanmean", CampaignOnly);
+  ("coo_common.nanmin", ByCite "C03.nanreduce_den"); ("coo_common.nanprod", ByCite "C03.nanreduce_den");
+  ("coo_common.nanreduce", ByCite "C03.nanreduce_den"); ("coo_common.nansum", ByCite "C03.nanreduce_den");
+  ("coo_common.result_type", NotApplicable); ("coo_common.roll", ByCite "C08.roll_axes_den");
+  ("coo_common.sort", CampaignOnly); ("coo_common.take", ByCite "C09.take_list_getitem");
+  ("coo_common.tril", ByGuard); ("coo_common.triu", ByGuard);
+  ("coo_common.unique_counts", NotApplicable); ("coo_common.unique_values", NotApplicable);
+  ("coo_common.where", ByGuard); ("io.load_npz", CampaignOnly);
+  ("io.save_npz", NotApplicable); ("umath.elemwise", ByCite "C01.elemwise_api_den");
+  ("utils.random", CampaignOnly); ("SparseArray.__array__", NotApplicable);
+  ("SparseArray.__array_function__", CampaignOnly); ("SparseArray.__array_ufunc__", ByCite "C01.elemwise_api_den");
+  ("SparseArray.__bool__", NotApplicable); ("SparseArray.__complex__", NotApplicable);
+  ("SparseArray.__float__", NotApplicable); ("SparseArray.__index__", NotApplicable);
+  ("SparseArray.__init__", NotApplicable); ("SparseArray.__int__", NotApplicable);
+  ("SparseArray.all", ByCite "C03.reduce_den"); ("SparseArray.any", ByCite "C03.reduce_den");
+  ("SparseArray.asformat", NotApplicable); ("SparseArray.astype", ByCite "C01.elemwise_api_den");
+  ("SparseArray.clip", ByCite "C01.elemwise_api_den"); ("SparseArray.conj", ByCite "C01.elemwise_api_den");
+  ("SparseArray.density", NotApplicable); ("SparseArray.device", NotApplicable);
+  ("SparseArray.imag", ByCite "C01.elemwise_api_den"); ("SparseArray.isinf", CampaignOnly);
+  ("SparseArray.isnan", CampaignOnly); ("SparseArray.max", ByCite "C03.reduce_den");
+  ("SparseArray.mean", ByCite "C03.mean_den"); ("SparseArray.min", ByCite "C03.reduce_den");
+  ("SparseArray.ndim", NotApplicable); ("SparseArray.nnz", NotApplicable);
+  ("SparseArray.prod", ByCite "C03.reduce_den"); ("SparseArray.real", ByCite "C01.elemwise_api_den");
+  ("SparseArray.reduce", ByCite "C03.reduce_den"); ("SparseArray.round", ByCite "C01.elemwise_api_den");
+  ("SparseArray.size", NotApplicable); ("SparseArray.std", ByCite "C03.var_den");
+  ("SparseArray.sum", ByCite "C03.reduce_den"); ("SparseArray.to_device", NotApplicable);
+  ("SparseArray.todense", NotApplicable); ("SparseArray.var", ByCite "C03.var_den");
+  ("COO.T", ByCite "C08.T_den"); ("COO.__getitem__", ByCite "C02.coo_getitem_basic");
+  ("COO.__init__", CampaignOnly); ("COO.__len__", NotApplicable);
+  ("COO.__matmul__", ByGuard); ("COO.__rmatmul__", ByGuard);
+  ("COO.asformat", ByCite "C05.conversion_chain_den"); ("COO.broadcast_to", ByCite "C08.broadcast_to_den");
+  ("COO.copy", CampaignOnly); ("COO.dot", ByGuard);
+  ("COO.dtype", NotApplicable); ("COO.enable_caching", NotApplicable);
+  ("COO.flatten", ByCite "C08.flatten_den"); ("COO.format", NotApplicable);
+  ("COO.from_iter", CampaignOnly); ("COO.from_numpy", ByCite "C05.from_dense_roundtrip");
+  ("COO.from_scipy_sparse", CampaignOnly); ("COO.isinf", CampaignOnly);
+  ("COO.isnan", CampaignOnly); ("COO.linear_loc", NotApplicable);
+  ("COO.mT", ByCite "C08.mT_den"); ("COO.maybe_densify", NotApplicable);
+  ("COO.nbytes", NotApplicable); ("COO.nnz", NotApplicable);
+  ("COO.nonzero", ByGuard); ("COO.reshape", ByCite "C08.reshape_den");
+  ("COO.squeeze", ByCite "C08.squeeze_den"); ("COO.swapaxes", ByCite "C08.swapaxes_den");
+  ("COO.to_scipy_sparse", ByGuard); ("COO.tocsc", ByGuard);
+  ("COO.tocsr", ByGuard); ("COO.todense", NotApplicable);
+  ("COO.transpose", ByCite "C08.transpose_den"); ("GCXS.T", ByCite "C08.gcxs_transpose_den");
+  ("GCXS.__getitem__", ByCite "C02.gcxs_getitem_den"); ("GCXS.__init__", CampaignOnly);
+  ("GCXS.__matmul__", ByGuard); ("GCXS.__rmatmul__", ByGuard);
+  ("GCXS.asformat", ByCite "C05.conversion_chain_den"); ("GCXS.change_compressed_axes", ByCite "C05.change_axes_den");
+  ("GCXS.compressed_axes", NotApplicable); ("GCXS.copy", CampaignOnly);
+  ("GCXS.dot", ByGuard); ("GCXS.dtype", NotApplicable);
+  ("GCXS.flatten", ByCite "C08.gcxs_reshape_den"); ("GCXS.format", NotApplicable);
+  ("GCXS.from_coo", ByCite "C05.conversion_chain_den"); ("GCXS.from_iter", CampaignOnly);
+  ("GCXS.from_numpy", ByCite "C05.from_dense_roundtrip"); ("GCXS.from_scipy_sparse", CampaignOnly);
+  ("GCXS.isinf", CampaignOnly); ("GCXS.isnan", CampaignOnly);
+  ("GCXS.mT", ByCite "C08.gcxs_transpose_den"); ("GCXS.maybe_densify", NotApplicable);
+  ("GCXS.nbytes", NotApplicable); ("GCXS.nnz", NotApplicable);
+  ("GCXS.reshape", ByCite "C08.gcxs_reshape_den"); ("GCXS.to_scipy_sparse", ByGuard);
+  ("GCXS.tocoo", ByCite "C05.conversion_chain_den"); ("GCXS.todense", NotApplicable);
+  ("GCXS.todok", ByCite "C05.conversion_chain_den"); ("GCXS.transpose", ByCite "C08.gcxs_transpose_den");
+  ("DOK.__getitem__", ByCite "C02.dok_getitem_den"); ("DOK.__init__", CampaignOnly);
+  ("DOK.__setitem__", NotApplicable); ("DOK.asformat", ByCite "C05.conversion_chain_den");
+  ("DOK.format", NotApplicable); ("DOK.from_coo", ByCite "C05.conversion_chain_den");
+  ("DOK.from_numpy", ByCite "C05.from_dense_roundtrip"); ("DOK.from_scipy_sparse", CampaignOnly);
+  ("DOK.isinf", CampaignOnly); ("DOK.isnan", CampaignOnly);
+  ("DOK.nbytes", NotApplicable); ("DOK.nnz", NotApplicable);
+  ("DOK.reshape", ByCite "C08.reshape_den"); ("DOK.to_coo", ByCite "C05.conversion_chain_den");
+  ("DOK.todense", NotApplicable)
+].
+
+Fixpoint discharge_of_in (l : list (string * discharge)) (op : string) : option discharge :=
+  match l with
+  | [] => None
+  | (k, d) :: r => if String.eqb k op then Some d else discharge_of_in r op
+  end.
+Definition discharge_of := discharge_of_in fill_discharge.
+
+Definition guard_policy (p : option policy) : bool :=
+  match p with
+  | Some (ZeroOnly _) | Some (ZeroOnlyLoose _) | Some (ZeroOnlyWhen _ _) | Some (PreservesOrZeroOnly _) | Some (Consistent _) => true
+  | _ => false
+  end.
+
+(* the obligation on one generated row *)
+Definition discharge_ok (cited : list string) (table : list site) (s : site) : bool :=
+  if negb (s_public s) then true else
+  match discharge_of (s_op s) with
+  | None => false
+  | Some ByGuard => guard_policy (policy_of (s_op s)) && site_ok_req table s
+  | Some (ByCite n) => mem n cited
+  | Some NotApplicable => match policy_of (s_op s) with Some NoArrayResult => true | _ => false end
+  | Some CampaignOnly => true
+  end.
+
+Definition count_discharge (f : discharge -> bool) : nat := List.length (filter (fun kd => f (snd kd)) fill_discharge).
